@@ -231,6 +231,33 @@ class RulesToApply(Contract):
                 ex.oblige(p1, nm, f, None)
 
 
+def _prefix_cut(lru, hi):
+    from pyvc import sym
+
+    return sym.BSLICE(lru, z3.IntVal(0), hi) if sym.ABSTRACT_BYTES else z3.Extract(lru, 0, hi)
+
+
+def _rules_seq(self, ex, p, recv, args, kw, ln):
+    """rules_to_apply as a callee: the sequence view of its verified postcondition (its
+    precondition - every recorded position lies within the LRU - is obliged here)"""
+    from pyvc.sym import blen
+
+    o = p.obj(recv)
+    rules = p.obj(o.f["webentity_creation_rules"])
+    lru = to_z3(o.f["lru"])
+    if "len" not in rules.f:
+        raise Unsupported("rules_to_apply over a concrete rule list")
+    from pyvc.sym import list_elem
+
+    n, el = rules.f["len"], list_elem(rules)
+    j = z3.Int("j")
+    ex.oblige(p, "rules_to_apply:pre:positions-within-the-lru", z3.ForAll([j], z3.Implies(z3.And(j >= 0, j < n), z3.And(to_z3(el(j)) >= 0, to_z3(el(j)) <= blen(lru)))), ln, "pre")
+    return p, SeqView(n, lambda i: _prefix_cut(lru, to_z3(el(n - 1 - i))))
+
+
+RulesToApply.seq = _rules_seq
+
+
 def rules_loop_inv(ex, p):
     idx = [k for k in p.env if k.startswith("__i")][0]
     i = to_z3(p.env[idx])
@@ -243,3 +270,247 @@ _install1 = install
 def install(lib):
     lib.loop_spec("LRUTrieWalkHistory.rules_to_apply::for#0", LoopSpec(rules_loop_inv, world=("out.n", "out.v")))
     return _install1(lib) + [RulesToApply()]
+
+
+# ---------------------------------------------------------------------------- lru_iter (removes the trusted half of A10)
+SEP = z3.StringVal("|") if BYTES == z3.StringSort() else None
+
+
+class LruIterSplit(Contract):
+    """lru_iter(s): the yields are the consecutive, maximal `|`-terminated pieces of s:
+    yield j is s[start_j : end_j] with start_0 = 0, start_(j+1) = end_j, its last byte is
+    the separator and no earlier byte of it is; what remains after the last yield holds
+    no separator (it is dropped).  Hence every yield is non-empty, the yields
+    concatenate to s[0:end_last], and to s itself when s is empty or ends with the
+    separator (a well-formed LRU): this is the sequence QS(0..QL-1), PRE(QL) = lru over
+    which lru_trie.py is verified."""
+
+    qual = "lru_iter"
+
+    def setups(self, ex):
+        p = Path()
+        s = fresh("lru", BYTES)
+        p.w["__s"] = s
+        p.w["out.n"] = z3.IntVal(0)
+        p.w["out.v"] = fresh("out_v", z3.ArraySort(INT, BYTES))
+        p.w["out.end"] = fresh("out_end", z3.ArraySort(INT, INT))
+        yield p, None, [s], {}, "any"
+
+    @staticmethod
+    def start(p, j):
+        return z3.If(j <= 0, 0, z3.Select(p.w["out.end"], j - 1))
+
+    def on_yield(self, ex, p, v, ln, tag):
+        n = p.w["out.n"]
+        vz = to_z3(v)
+        p.w["out.v"] = z3.Store(p.w["out.v"], n, vz)
+        p.w["out.end"] = z3.Store(p.w["out.end"], n, self.start(p, n) + z3.Length(vz))
+        p.w["out.n"] = z3.simplify(n + 1)
+        p.mut += 1
+        return [(p, "normal", None)]
+
+    @classmethod
+    def described(cls, p, upto):
+        s = p.w["__s"]
+        j = z3.Int("j")
+        st, en = cls.start(p, j), z3.Select(p.w["out.end"], j)
+        rng = z3.And(j >= 0, j < upto)
+        return [
+            ("yield-j-is-the-slice-from-the-end-of-yield-j-1", z3.ForAll([j], z3.Implies(rng, z3.Select(p.w["out.v"], j) == z3.Extract(s, st, en - st)))),
+            ("yield-j-is-non-empty-and-inside-the-lru", z3.ForAll([j], z3.Implies(rng, z3.And(st >= 0, st < en, en <= z3.Length(s))))),
+            ("yield-j-ends-with-the-separator", z3.ForAll([j], z3.Implies(rng, z3.Extract(s, en - 1, 1) == SEP))),
+            ("yield-j-holds-no-earlier-separator", z3.ForAll([j], z3.Implies(rng, z3.Not(z3.Contains(z3.Extract(s, st, en - 1 - st), SEP))))),
+        ]
+
+    def check(self, ex, p0, res, tag):
+        s = p0.w["__s"]
+        for p1, kind, val in res:
+            if kind == "raise":
+                ex.oblige(p1, "raises-nothing(%s)" % val[0], False, val[1])
+                continue
+            n = p1.w["out.n"]
+            for nm, f in self.described(p1, n):
+                ex.oblige(p1, nm, f, None)
+            last = self.start(p1, n)
+            ex.oblige(p1, "the-dropped-remainder-holds-no-separator", z3.Not(z3.Contains(z3.Extract(s, last, z3.Length(s) - last), SEP)), None)
+            ex.oblige(p1, "well-formed-lru:the-yields-cover-it-entirely", z3.Implies(z3.Or(z3.Length(s) == 0, z3.SuffixOf(SEP, s)), last == z3.Length(s)), None)
+
+
+def lru_iter_inv(ex, p):
+    idx = [k for k in p.env if k.startswith("__i")][0]
+    i = to_z3(p.env[idx])
+    s = p.w["__s"]
+    last = to_z3(p.env["last"])
+    n = p.w["out.n"]
+    cs = [
+        ("last-is-the-end-of-the-last-yield", last == LruIterSplit.start(p, n)),
+        ("last-within-the-scanned-part", z3.And(last >= 0, last <= i)),
+        ("no-separator-since-last", z3.Not(z3.Contains(z3.Extract(s, last, i - last), SEP))),
+        ("yields-counted", n >= 0),
+    ]
+    return cs + LruIterSplit.described(p, n)
+
+
+_install2 = install
+
+
+def install(lib):
+    cs = _install2(lib)
+    if SEP is not None:
+        lib.loop_spec("lru_iter::for#0", LoopSpec(lru_iter_inv, world=("out.n", "out.v", "out.end")))
+        cs = cs + [LruIterSplit()]
+    return cs
+
+
+# ---------------------------------------------------------------------------- lru_iter as a callee, lru_dirname
+if SEP is not None:
+    NST = z3.Function("NSTEMS", BYTES, INT)
+    SEND = z3.Function("STEM_END", BYTES, INT, INT)
+
+
+def _lru_iter_seq(self, ex, p, recv, args, kw, ln):
+    """lru_iter as a callee: the sequence view of its verified postcondition, for the
+    argument s: NSTEMS(s) pieces, piece j = s[start_j : STEM_END(s, j)]"""
+    s = to_z3(args[0])
+    n = NST(s)
+    j = z3.Int("j")
+
+    def start(k):
+        return z3.If(k <= 0, 0, SEND(s, k - 1))
+
+    st, en = start(j), SEND(s, j)
+    rng = z3.And(j >= 0, j < n)
+    q = p.fork()
+    q.assume(n >= 0)
+    q.assume(z3.ForAll([j], z3.Implies(rng, z3.And(st >= 0, st < en, en <= z3.Length(s)))))
+    q.assume(z3.ForAll([j], z3.Implies(rng, z3.Extract(s, en - 1, 1) == SEP)))
+    q.assume(z3.ForAll([j], z3.Implies(rng, z3.Not(z3.Contains(z3.Extract(s, st, en - 1 - st), SEP)))))
+    last = start(n)
+    q.assume(z3.Not(z3.Contains(z3.Extract(s, last, z3.Length(s) - last), SEP)))
+    q.assume(z3.Implies(z3.Or(z3.Length(s) == 0, z3.SuffixOf(SEP, s)), last == z3.Length(s)))
+    view = SeqView(n, lambda i: z3.Extract(s, start(i), SEND(s, i) - start(i)))
+    view.joinpre = lambda k: z3.Extract(s, 0, start(k))
+    return q, view
+
+
+if SEP is not None:
+    LruIterSplit.seq = _lru_iter_seq
+
+
+class LruDirnameSplit(Contract):
+    """lru_dirname(s) for a well-formed s (non-empty, closed by the separator): s minus
+    its last stem - the result r is a prefix of s, is empty or closed by the separator,
+    and what follows it in s is ONE stem (closed by the separator, none inside).  For the
+    empty LRU the result is empty.  Lemma (discharged on strings): hence
+    lru_dirname(x + k) = x whenever x is empty or closed by the separator and k is a
+    stem - the law DIRNAME(LRUB(ext(p, k))) = LRUB(p) used at the trie level."""
+
+    qual = "lru_dirname"
+
+    def setups(self, ex):
+        p = Path()
+        s = fresh("lru", BYTES)
+        p.w["__s"] = s
+        yield p, None, [s], {}, "any"
+
+    @staticmethod
+    def spec(s, r):
+        l = z3.Extract(s, z3.Length(r), z3.Length(s) - z3.Length(r))
+        wf = z3.And(z3.Length(s) > 0, z3.SuffixOf(SEP, s))
+        return [
+            ("result-is-a-prefix-of-the-lru", z3.PrefixOf(r, s)),
+            ("result-is-empty-or-closed-by-the-separator", z3.Or(z3.Length(r) == 0, z3.SuffixOf(SEP, r))),
+            # (s is closed by the separator, so what follows r is closed by it as well)
+            ("well-formed-lru:what-follows-the-result-is-one-stem", z3.Implies(wf, z3.And(z3.Length(r) < z3.Length(s), z3.Not(z3.Contains(z3.Extract(s, z3.Length(r), z3.Length(s) - z3.Length(r) - 1), SEP))))),
+            ("empty-lru:empty-result", z3.Implies(z3.Length(s) == 0, z3.Length(r) == 0)),
+        ]
+
+    def check(self, ex, p0, res, tag):
+        s = p0.w["__s"]
+        for p1, kind, val in res:
+            if kind == "raise":
+                ex.oblige(p1, "raises-nothing(%s)" % val[0], False, val[1])
+                continue
+            for nm, f in self.spec(s, to_z3(val)):
+                ex.oblige(p1, nm, f, None)
+        # the lemma: a pure fact about byte strings
+        q = Path()
+        x, k, r = fresh("x", BYTES), fresh("k", BYTES), fresh("r", BYTES)
+        q.assume(z3.Or(z3.Length(x) == 0, z3.SuffixOf(SEP, x)))
+        q.assume(z3.And(z3.Length(k) >= 1, z3.SuffixOf(SEP, k), z3.Not(z3.Contains(z3.Extract(k, 0, z3.Length(k) - 1), SEP))))
+        for nm, f in self.spec(z3.Concat(x, k), r):
+            q.assume(f)
+        ex.oblige(q, "lemma:dirname-of-a-path-extended-by-one-stem-is-the-path", r == x, None)
+
+
+_install3 = install
+
+
+def install(lib):
+    cs = _install3(lib)
+    if SEP is not None:
+        cs = cs + [LruDirnameSplit()]
+    return cs
+
+
+# ---------------------------------------------------------------------------- chunks_iter
+class ChunksIter(Contract):
+    """chunks_iter(n, s): the chunks of detailed_chunks_iter without the is_last marks
+    (verified against that generator's sequence contract)"""
+
+    qual = "chunks_iter"
+
+    def setups(self, ex):
+        for n in CHUNK_SIZES[:2]:
+            p = Path()
+            s = fresh("string", BYTES)
+            p.w["__s"] = s
+            p.w["out.n"] = z3.IntVal(0)
+            p.w["out.chunk"] = fresh("out_chunk", z3.ArraySort(INT, BYTES))
+            yield p, None, [n, s], {}, n
+
+    def on_yield(self, ex, p, v, ln, tag):
+        n = p.w["out.n"]
+        p.w["out.chunk"] = z3.Store(p.w["out.chunk"], n, to_z3(v))
+        p.w["out.n"] = z3.simplify(n + 1)
+        p.mut += 1
+        return [(p, "normal", None)]
+
+    @staticmethod
+    def described(p, n, upto):
+        j = z3.Int("j")
+        return [("yield-j-is-chunk-j", z3.ForAll([j], z3.Implies(z3.And(j >= 0, j < upto), z3.Select(p.w["out.chunk"], j) == chunk(p.w["__s"], n, j))))]
+
+    def check(self, ex, p0, res, n):
+        k = nchunks(z3.Length(p0.w["__s"]), n)
+        for p1, kind, val in res:
+            if kind == "raise":
+                ex.oblige(p1, "raises-nothing(%s)" % val[0], False, val[1])
+                continue
+            ex.oblige(p1, "number-of-chunks", p1.w["out.n"] == k, None)
+            for nm, f in self.described(p1, n, p1.w["out.n"]):
+                ex.oblige(p1, nm, f, None)
+
+    def seq(self, ex, p, recv, args, kw, ln):
+        n, s = args[0], to_z3(args[1])
+        if not isinstance(n, int) or n not in CHUNK_SIZES:
+            raise Unsupported("chunks_iter with a chunk size outside %r" % (CHUNK_SIZES,))
+        return p, SeqView(nchunks(z3.Length(s), n), lambda i: chunk(s, n, i))
+
+
+def chunks_iter_inv(ex, p):
+    n = p.env["chunk_size"]
+    idx = [k for k in p.env if k.startswith("__i")][0]
+    i = to_z3(p.env[idx])
+    return [("yields-so-far==iterations", p.w["out.n"] == i)] + ChunksIter.described(p, n, p.w["out.n"])
+
+
+_install4 = install
+
+
+def install(lib):
+    cs = _install4(lib)
+    if SEP is not None:
+        lib.loop_spec("chunks_iter::for#0", LoopSpec(chunks_iter_inv, world=("out.n", "out.chunk")))
+        cs = cs + [ChunksIter()]
+    return cs
